@@ -6,10 +6,12 @@ functions with independent references written in this file:
 * bounded_dataset_derivations: a per-individual, chronological walk over the event records
   (property C14, functions of src/pharmpy/modeling/data.py); every derivation is also held to
   the frame "the input model's dataset is not modified" (property C06), on datasets with
-  numeric TIME as well as with NM-TRAN clock TIME and DATE columns
+  numeric TIME as well as with NM-TRAN clock TIME and DATE columns, with EVID and MDV columns
+  that disagree on some records, and with covariates that are missing on some records
 * bounded_dataset_reading: a reference NM-TRAN reader written from docs/NONMEM.rst
   (property C13, src/pharmpy/model/external/nonmem/dataset.py, modeling/write_csv.py) and the
-  write/read cycles of datasets through generated model code
+  write/read cycles of datasets through generated model code (also for a model with its own
+  missing data token), IGNORE/ACCEPT filters on columns that have a synonym in $INPUT
 
 Every entry of 'fails' carries 'also': all failing cases of its (fid, clause) key in
 enumeration order (capped), see tools/BOUNDED_GUIDE.md.
@@ -37,6 +39,7 @@ import pandas as pd  # noqa: E402
 DATA_PY = 'src/pharmpy/modeling/data.py'
 DATASET_PY = 'src/pharmpy/model/external/nonmem/dataset.py'
 WRITE_CSV_PY = 'src/pharmpy/modeling/write_csv.py'
+MODEL_PY = 'src/pharmpy/model/model.py'
 
 NPROC = 16
 ALSO_CAP = 300  # length of the 'also' list of a failing clause (tools/BOUNDED_GUIDE.md)
@@ -61,6 +64,9 @@ KINDS = {
     'd2': dict(evid=1, dose=True, cmt=2),
     'R1': dict(evid=4, dose=True, cmt=1),
     'R2': dict(evid=4, dose=True, cmt=2),
+    # records on which an EVID and an MDV column disagree about "observation":
+    'om': dict(evid=0, dose=False, mdv=1),  # observation event whose DV is missing (MDV=1)
+    'x': dict(evid=2, dose=False, mdv=0),  # other-type event that carries MDV=0
 }
 
 # schema: which optional columns exist, the name of the id column, the model around the data
@@ -105,7 +111,20 @@ SCHEMAS = {
                  thorough=True),
     'dat3': dict(model='iv', id='ID', cols=[], kinds=['o', 'd'], timefmt='cal', datecol='DAT3',
                  thorough=True),
+    # BOTH an EVID and an MDV column, disagreeing on some records (EVID=0 with MDV=1, EVID=2 with
+    # MDV=0).  The MDV column says which records carry an observation, the EVID column is the
+    # event id.  Only the derivations that read these two columns (and the dose / baseline
+    # subsets) are evaluated on these datasets: see OBS_FUNCS.
+    'evid_mdv': dict(model='iv', id='ID', cols=['EVID', 'MDV'], kinds=['o', 'om', 'x', 'd'],
+                     only='obs'),
+    'subj_mdv_evid': dict(model='iv', id='SUBJ', cols=['MDV', 'EVID'], kinds=['o', 'om', 'x', 'd'],
+                          only='obs', small=True),
 }
+
+# the derivations evaluated on the schemas with only='obs'
+OBS_FUNCS = ('get_mdv', 'get_evid', 'get_observations', 'get_number_of_observations',
+             'get_number_of_observations_per_individual', 'get_doses', 'get_baselines',
+             'list_time_varying_covariates')
 
 # Rendering of the enumerated time t (0, 1, 2, ...) as NM-TRAN items.  The record walk works on
 # the elapsed hours; the items are written from the hours, never parsed back.
@@ -211,7 +230,7 @@ def _records(case):
                 ss=K.get('ss', 0),
                 cmt=cmt,
                 admid_in=last_admid,
-                mdv_in=1 if (K['evid'] != 0 or K.get('mdv')) else 0,
+                mdv_in=K['mdv'] if 'mdv' in K else (1 if K['evid'] != 0 else 0),
             )
             recs.append(rec)
     return recs
@@ -224,6 +243,32 @@ def _cov_patterns(n):
     pats = [p for p in itertools.product((0, 1), repeat=n) if p[0] == 0 and any(p)]
     pats.sort(key=lambda p: (p != (0,) * (n - 1) + (1,), p))
     return pats
+
+
+def _missing_patterns(n):
+    """Every way in which a covariate can be missing on the n records of an individual
+    (1 = missing on that record), at least one record missing"""
+    return [p for p in itertools.product((0, 1), repeat=n) if any(p)]
+
+
+def _build_df_missing(case):
+    """The dataset of a case (constant covariates WGT, AGE) plus, for every individual (file
+    position p) and every way q of being missing over its records, one covariate column
+    NA<p>_<q> that is missing (NaN) on exactly those records of that individual, e.g. NA0_10:
+    missing on the first of the two records of the first individual.  Where the column has a
+    value, the value is 5 + row number (no two records have the same value)."""
+    df, _ = _build_df(case, 'const')
+    recs = _records(case)
+    n = len(recs)
+    for p in range(len(case['ids'])):
+        rows = [r['row'] for r in recs if r['pos'] == p]
+        for pat in _missing_patterns(len(rows)):
+            col = [5.0 + i for i in range(n)]
+            for row, bit in zip(rows, pat):
+                if bit:
+                    col[row] = math.nan
+            df[f'NA{p}_' + ''.join(str(b) for b in pat)] = np.array(col, dtype=np.float64)
+    return df
 
 
 def _build_df(case, cov='const'):
@@ -323,7 +368,7 @@ def _build_di_uncached(df, idname, sch):
                                           unit=u))
         elif c == sch.get('datecol'):
             cols.append(ColumnInfo.create(c, scale='interval', datatype='nmtran-date', unit=u))
-        elif c.startswith('CV'):
+        elif c.startswith('CV') or c.startswith('NA'):
             cols.append(ColumnInfo.create(c, type='covariate', datatype='float64', unit=u))
         else:
             tp, dt = COLTYPES[c]
@@ -592,6 +637,9 @@ DOCUMENTED_ERRORS = {
 }
 
 
+_NOT_EVALUATED = 'not evaluated on this schema'  # returned by _call in place of an exception
+
+
 def _call(ctx, fname, df0, di, **kwargs):
     """Call pharmpy.modeling.<fname> on a fresh model around a private copy of df0.
 
@@ -600,9 +648,11 @@ def _call(ctx, fname, df0, di, **kwargs):
     import pharmpy.modeling as pm
     from pharmpy.model import DatasetError
 
+    sch = SCHEMAS[ctx.case['schema']]
+    if sch.get('only') == 'obs' and fname not in OBS_FUNCS:
+        return None, _NOT_EVALUATED
     model = _fresh_model(ctx.case, df0, di)
     given = model.dataset
-    sch = SCHEMAS[ctx.case['schema']]
     res = None
     raised = None
     try:
@@ -883,8 +933,49 @@ def _check_case(case):
                     f'{why}\n{descc}',
                 )
 
+    # ---- get_baselines on covariates that are missing on some records --------------------
+    # (docstring of get_baselines: "Baseline is taken to be the first row even if that has a
+    # missing value"; the record walk takes the first record of the individual as it stands)
+    dfm = _build_df_missing(case)
+    dim = _build_di(dfm, idname, case['schema'])
+    res, err = _call(ctx, 'get_baselines', dfm, dim)
+    if err is None:
+        why = _baselines_differ(res, dfm, recs, idname)
+        if why:
+            ctx.fail(
+                'get_baselines',
+                'the baseline of an individual is its first record, also where that record has '
+                'missing values',
+                f'{why}\n{_Lazy(dfm)}',
+            )
+
     nontrivial = any(r['dose'] for r in recs) and any(not r['dose'] for r in recs)
     return ctx.fails, nontrivial
+
+
+def _baselines_differ(res, df, recs, idname):
+    """None when res holds, per individual, the values of its first record (a missing value
+    where that record has a missing value), else what differs"""
+    firsts = {}
+    for r in recs:
+        firsts.setdefault(r['idval'], r['row'])
+    other = [c for c in df.columns if c != idname]
+    if not isinstance(res, pd.DataFrame):
+        return f'not a DataFrame: {res!r}'
+    if res.index.name != idname or list(res.columns) != other:
+        return f'index name {res.index.name!r}, columns {list(res.columns)} expected {other}'
+    try:
+        got_ids = [int(k) for k in res.index]
+    except (TypeError, ValueError):
+        return f'index {list(res.index)}'
+    if sorted(got_ids) != sorted(firsts) or len(got_ids) != len(firsts):
+        return f'individuals {got_ids} expected {sorted(firsts)}'
+    for k, idval in zip(res.index, got_ids):
+        exp = _flist(df.loc[firsts[idval], other].tolist())
+        got = _flist(res.loc[k, other].tolist())
+        if not _same_numbers(got, exp):
+            return _Lazy(f'individual {idval}: {got} expected {exp} (columns {other}); got\n', res)
+    return None
 
 
 def _check_translated(ctx, df0, res, recs, sch, idname, desc):
@@ -1333,12 +1424,14 @@ def bounded_dataset_derivations(tier='quick'):
     RENDER[0] = render
     extra = 1 if tier == 'thorough' else 0
     nsch = len([1 for sch in SCHEMAS.values() if extra or not sch.get('thorough')])
+    nsmall = len([1 for sch in SCHEMAS.values() if sch.get('small')])
+    nobs = len([1 for sch in SCHEMAS.values() if sch.get('only') == 'obs'])
     bound = (
         'all event datasets over %d column schemas (optional EVID/MDV/RATE/ADDL+II/SS/CMT/ADMID '
         'columns, id column ID or SUBJ, one schema without dose column, TIME as number or as '
         'NM-TRAN clock time h:mm alone / with a day number or calendar DATE column%s): one '
         'individual (id 3) '
-        'with <=%d records (<=%d in 3 near-duplicate schemas), TIME in {0,1,2} (x1.5 h or x12 h '
+        'with <=%d records (<=%d in %d near-duplicate schemas), TIME in {0,1,2} (x1.5 h or x12 h '
         'in the clock/date schemas) non-decreasing '
         'within a reset group (ties included), every record kind of the schema (observation, '
         'MDV=1 non-dose record, dose, dose with ADDL=1 II=1, SS dose, EVID 3, EVID 4, doses into '
@@ -1346,11 +1439,18 @@ def bounded_dataset_derivations(tier='quick'):
         'total) with <=%d records in total, TIME in {0,1}; dose amounts alternating 100 / 0.5 '
         'with the file position, %s; covariates constant / '
         'changing within the first / last individual in every pattern over its records relative '
-        'to the first record (one covariate column per pattern, e.g. 0,0,1 / 0,1,0 / 0,1,1)'
-        % (nsch, ' (DATE, DAT1, DAT2, DAT3)' if extra else '', 3 + extra, 2 + extra,
+        'to the first record (one covariate column per pattern, e.g. 0,0,1 / 0,1,0 / 0,1,1); '
+        'get_baselines also with covariate columns that are missing (NaN) on every non-empty '
+        'subset of the records of each individual (one column per individual and subset); '
+        '%d of the schemas have BOTH an EVID and an MDV column (either column order) with the '
+        'record kinds observation, dose, EVID=0 with MDV=1 and EVID=2 with MDV=0: on these only '
+        'get_mdv, get_evid, get_observations, the observation counts, get_doses, get_baselines '
+        'and list_time_varying_covariates are evaluated'
+        % (nsch, ' (DATE, DAT1, DAT2, DAT3)' if extra else '', 3 + extra, 2 + extra, nsmall,
            2 + extra, 3 + extra,
            'datasets with <=3 records also with 0.5 / 0.25 only and with 100 / 50 only' if extra else
-           'one-individual datasets with <=2 records also with amounts 0.5 / 0.25 only')
+           'one-individual datasets with <=2 records also with amounts 0.5 / 0.25 only',
+           nobs)
     )
     samples = [repr(cases[i])[:200] for i in (0, len(cases) // 2, len(cases) - 1)]
     return {
@@ -2077,6 +2177,33 @@ def _enumerate_roundtrip(tier):
                 yield {'fam': 'roundtrip', 'kind': 'both', 'a': a, 'b': b}
 
 
+# missing data tokens of the model's own datainfo that differ from the configured default (-99);
+# none of them is a value of _RT_FLOATS / _RT_INTS
+_RT_TOKENS = ['-999', '999']
+_RT_STEPS = [('write_csv', 'write_model'), ('write_model',)]
+
+
+def _enumerate_roundtrip_tokens(tier):
+    """The round trips again for a model whose datainfo carries its own missing data token
+    (quick: -999, thorough: also 999): every pair of float values (NaN included) and of integer
+    values (the default token -99 included, now an ordinary number), dataset written by
+    write_csv + write_model and - when a value is missing - also by write_model alone"""
+    tokens = _RT_TOKENS if tier == 'thorough' else _RT_TOKENS[:1]
+    nan = [i for i, v in enumerate(_RT_FLOATS) if v != v]
+    for tok in tokens:
+        for a in range(len(_RT_FLOATS)):
+            for b in range(len(_RT_FLOATS)):
+                for steps in range(len(_RT_STEPS)):
+                    if steps and a not in nan and b not in nan:
+                        continue
+                    yield {'fam': 'roundtrip', 'kind': 'float', 'a': a, 'b': b, 'missing': tok,
+                           'steps': steps}
+        for a in range(len(_RT_INTS)):
+            for b in range(len(_RT_INTS)):
+                yield {'fam': 'roundtrip', 'kind': 'int', 'a': a, 'b': b, 'missing': tok,
+                       'steps': 0}
+
+
 _RT_BASE = []
 
 
@@ -2112,11 +2239,37 @@ def _roundtrip_case(spec, tmpdir):
     snap = df.copy(deep=True)
     d = tempfile.mkdtemp(dir=tmpdir)
     shown = f'dataset {df.to_dict(orient="list")}'
+    tok = spec.get('missing')
+    datafile = 'data.csv'
     try:
-        model = _roundtrip_base().replace(dataset=df)
-        model = write_csv(model, path=os.path.join(d, 'data.csv'), force=True)
-        model = write_model(model, os.path.join(d, 'run1.mod'), force=True)
-        back = read_model(os.path.join(d, 'run1.mod')).dataset
+        if tok is None:
+            model = _roundtrip_base().replace(dataset=df)
+            model = write_csv(model, path=os.path.join(d, 'data.csv'), force=True)
+            model = write_model(model, os.path.join(d, 'run1.mod'), force=True)
+            back = read_model(os.path.join(d, 'run1.mod')).dataset
+        else:
+            # the model carries its own missing data token: the dataset is written for this
+            # model and the generated code is read with the model's token
+            clause = ('a dataset written for a model whose datainfo has its own missing data '
+                      'token and read back through the generated code with that token is equal '
+                      'to the model\'s dataset')
+            steps = _RT_STEPS[spec['steps']]
+            shown += f', missing data token {tok!r}, calls {" -> ".join(steps)} -> read_model'
+            base = _roundtrip_base()
+            base = base.replace(datainfo=base.datainfo.replace(missing_data_token=tok))
+            model = base.replace(dataset=df)
+            if str(model.datainfo.missing_data_token) != tok:
+                return [(f'{MODEL_PY}:Model.replace',
+                         'replacing the dataset keeps the missing data token of the datainfo',
+                         f'token {model.datainfo.missing_data_token!r} for {shown}')]
+            for step in steps:
+                if step == 'write_csv':
+                    model = write_csv(model, path=os.path.join(d, 'data.csv'), force=True)
+                else:
+                    model = write_model(model, os.path.join(d, 'run1.mod'), force=True)
+            if 'write_csv' not in steps:
+                datafile = 'run1.csv'
+            back = read_model(os.path.join(d, 'run1.mod'), missing_data_token=tok).dataset
     except Exception as e:  # noqa: BLE001
         return [(fid, f'no internal error [{type(e).__name__}]',
                  f'{type(e).__name__}: {e} for {shown}')]
@@ -2137,8 +2290,11 @@ def _roundtrip_case(spec, tmpdir):
                 ok = False
     if not ok:
         got = back.to_dict(orient='list') if isinstance(back, pd.DataFrame) else repr(back)
-        with open(os.path.join(d, 'data.csv')) as fh:
-            written = fh.read()
+        try:
+            with open(os.path.join(d, datafile)) as fh:
+                written = fh.read()
+        except OSError as e:
+            written = f'<{datafile}: {type(e).__name__}>'
         fails.append((fid, clause, f'read back {got} for {shown}; file written: {written!r}'))
     return fails
 
@@ -2237,9 +2393,114 @@ def _cycle_case(spec, tmpdir):
     return fails
 
 
+# ---- IGNORE/ACCEPT filters on columns that have a synonym in $INPUT --------------------------
+#
+# $INPUT A=B gives a data item a reserved name and a synonym; the filter may name the column by
+# either of them.  The comparison value is text of the DATA FILE: it is compared with the items
+# as it is written, whatever names it happens to contain (IGNORE=(DV.EQ.NODV) with DV=CONC
+# removes the rows whose item is NODV).
+
+_SYN_INPUTS = [
+    # $INPUT text, the names by which each file column can be referred to, dataset column names
+    ('ID DV=CONC WT', [['ID'], ['DV', 'CONC'], ['WT']], ['ID', 'CONC', 'WT']),
+    ('ID CONC=DV WT', [['ID'], ['CONC', 'DV'], ['WT']], ['ID', 'CONC', 'WT']),
+    ('ID=SUBJ DV WT', [['ID', 'SUBJ'], ['DV'], ['WT']], ['SUBJ', 'DV', 'WT']),
+    ('SUBJ=ID DV WT', [['SUBJ', 'ID'], ['DV'], ['WT']], ['SUBJ', 'DV', 'WT']),
+    ('ID DV WT', [['ID'], ['DV'], ['WT']], ['ID', 'DV', 'WT']),
+    ('ID DV=CONC WT=AMT', [['ID'], ['DV', 'CONC'], ['WT', 'AMT']], ['ID', 'CONC', 'WT']),
+]
+_SYN_ROWS = [['1', '1.5', '3'], ['2', '2.5', '6'], ['3', '3.5', '9']]
+
+
+def _syn_names(inp):
+    return [n for names in _SYN_INPUTS[inp][1] for n in names]
+
+
+def _enumerate_synonym_filters(tier):
+    """Every $INPUT of _SYN_INPUTS x filter column named by each of its names x text operator x
+    IGNORE/ACCEPT x comparison values made from every name of the $INPUT (NO<name>; thorough:
+    also <name>1 and the bare name), unquoted (the value made from the label itself - thorough:
+    every value - also in quotes); the middle row of a three-row file has the value as its item
+    in the filter column.  Plus one numeric filter (.GT. 2) per column name."""
+    thorough = tier == 'thorough'
+    ops = ['.EQ.', '.NE.', '==', '/='] if thorough else ['.EQ.', '.NE.']
+    for inp in range(len(_SYN_INPUTS)):
+        names = _syn_names(inp)
+        for label in names:
+            for op in ops:
+                for kind in ('ignore', 'accept'):
+                    for n in names:
+                        forms = ['NO' + n] + ([n + '1', n] if thorough else [])
+                        for val in forms:
+                            quotes = ['', "'", '"'] if thorough else (
+                                ['', "'"] if n == label else [''])
+                            for q in quotes:
+                                yield {'fam': 'syn', 'input': inp, 'label': label, 'op': op,
+                                       'val': val, 'quote': q, 'kind': kind}
+            for kind in ('ignore', 'accept'):
+                yield {'fam': 'syn', 'input': inp, 'label': label, 'op': '.GT.', 'val': '2',
+                       'quote': '', 'kind': kind}
+
+
+def _syn_case(spec, tmpdir):
+    from pharmpy.model import DatasetError
+    from pharmpy.modeling import read_model
+
+    inp, colnames_by, dsnames = _SYN_INPUTS[spec['input']]
+    fid = f'{PARSING_PY}:parse_dataset'
+    clause = ('an IGNORE/ACCEPT filter may name its column by the reserved name or by the $INPUT '
+              'synonym; the items of that column are compared with the value as it is written '
+              '(names inside the value are not replaced)')
+    k = [i for i, names in enumerate(colnames_by) if spec['label'] in names][0]
+    rows = [list(r) for r in _SYN_ROWS]
+    if spec['op'] in _TEXT_OPS:
+        rows[1][k] = spec['val']  # this row has the comparison value as its item
+    text = ''.join(','.join(r) + '\n' for r in rows)
+    value = spec['quote'] + spec['val'] + spec['quote']
+    # the reference reader refers to the columns by position
+    refnames = [f'P{i}' for i in range(len(colnames_by))]
+    rspec = {'text': text, 'colnames': refnames, 'drop': [False] * len(refnames),
+             spec['kind']: [f'P{k}{spec["op"]}{value}']}
+    ref = _ref_read(rspec)
+    opt = f'{spec["kind"].upper()}=({spec["label"]}{spec["op"]}{value})'
+    d = tempfile.mkdtemp(dir=tmpdir)
+    with open(os.path.join(d, 'data.csv'), 'w') as fh:
+        fh.write(text)
+    path = os.path.join(d, 'run1.mod')
+    with open(path, 'w') as fh:
+        fh.write(_MODEL_CODE.format(input=inp, data='data.csv ' + opt))
+    shown = f'$INPUT {inp} / $DATA data.csv {opt} / file {text!r}'
+    try:
+        df = read_model(path).dataset
+    except Exception as e:  # noqa: BLE001
+        if ref[0] == 'error' and isinstance(e, DatasetError):
+            return []
+        if isinstance(e, DatasetError):
+            return [(fid, clause, f'DatasetError: {e}; expected {ref[1]} for {shown}')]
+        return [(fid, f'no internal error (only DatasetError) [{type(e).__name__}]',
+                 f'{type(e).__name__}: {e}; reference {ref} for {shown}')]
+    if ref[0] == 'error':
+        return [(fid, clause + ' (documented error is raised)',
+                 f'read {df.values.tolist()}; documented outcome is an error ({ref[1]}) for '
+                 f'{shown}')]
+    exp = ref[1]
+    if not isinstance(df, pd.DataFrame) or list(df.columns) != dsnames:
+        return [(fid, clause, f'columns {list(getattr(df, "columns", []))} expected {dsnames} '
+                 f'for {shown}')]
+    try:
+        got = [[float(v) for v in r] for r in df.values.tolist()]
+    except (TypeError, ValueError):
+        got = df.values.tolist()
+    if len(got) != len(exp) or not all(_same_numbers(g, e) for g, e in zip(got, exp)):
+        return [(fid, clause, f'read {got} expected {exp} for {shown}')]
+    return []
+
+
 def _file_case(spec, tmpdir):
     if spec['fam'] == 'model':
         return _model_read_case(spec, tmpdir)
+    if spec['fam'] == 'syn':
+        return _syn_case(spec, tmpdir)
     if spec['fam'] == 'cycle':
         return _cycle_case(spec, tmpdir)
     return _roundtrip_case(spec, tmpdir)
@@ -2319,7 +2580,8 @@ def bounded_dataset_reading(tier='quick'):
                 record(fid, clause, _spec_size(specs[idx]) + (idx,), specs[idx], detail)
     # C, D, E: through a model
     fspecs = (list(_enumerate_model_reads(tier)) + list(_enumerate_roundtrip(tier))
-              + list(_enumerate_cycles(tier)))
+              + list(_enumerate_cycles(tier)) + list(_enumerate_roundtrip_tokens(tier))
+              + list(_enumerate_synonym_filters(tier)))
     for chunk in _run_pool(_file_work, list(enumerate(fspecs)), 12):
         for idx, r in chunk:
             if r is None:
@@ -2352,11 +2614,22 @@ def bounded_dataset_reading(tier='quick'):
         'write_model + read_model on 2-row datasets over %d float and %d integer values; '
         'a model with each of the %d $DATA option sets (IGNORE/ACCEPT lists, NULL, IGNORE=c) '
         'given one of %d new datasets, written in %d orders of write_csv / update_source / '
-        'write_model and read back'
+        'write_model and read back; the float and integer round trips again for a model whose '
+        'datainfo has its own missing data token (%s), written by write_csv + write_model and, '
+        'when a value is missing, by write_model alone, read back with that token; '
+        '%d $INPUT forms with synonyms (DV=CONC, CONC=DV, ID=SUBJ, SUBJ=ID, WT=AMT, none) x '
+        'IGNORE/ACCEPT filter on each column named by its reserved name or its synonym x text '
+        'operators %s x values NO<name>%s for every name of the $INPUT (%s) on a three-row file '
+        'whose middle row has the value as item, plus a numeric filter .GT. 2 per name'
         % (maxlen, 'two-row (also with missing data token 5; and three-row over 7 forms)'
            if tier == 'thorough' else 'two-row',
            len(_B_ITEMS), len(_INPUTS), len(_DATA_OPTS), len(_DATA_TEXTS) + 1, len(_RT_FLOATS),
-           len(_RT_INTS), len(_DATA_OPTS), len(_CYCLE_DATA), len(_CYCLE_STEPS))
+           len(_RT_INTS), len(_DATA_OPTS), len(_CYCLE_DATA), len(_CYCLE_STEPS),
+           ', '.join(_RT_TOKENS if tier == 'thorough' else _RT_TOKENS[:1]), len(_SYN_INPUTS),
+           '.EQ. .NE. == /=' if tier == 'thorough' else '.EQ. .NE.',
+           ', <name>1, <name>' if tier == 'thorough' else '',
+           'unquoted and in single / double quotes' if tier == 'thorough'
+           else 'unquoted; the value made from the filter label also in quotes')
     )
     samples = [repr(specs[0])[:160], repr(specs[len(specs) // 2])[:160], repr(fspecs[-1])[:160]]
     return {'cases': cases, 'nontrivial': nontriv, 'bound': bound, 'samples': samples,
@@ -2368,7 +2641,7 @@ def bounded_dataset_reading_replay(rp):
     spec = c['spec']
     if spec['fam'] == 'number':
         r = _number_case(spec['s'])
-    elif spec['fam'] in ('model', 'roundtrip', 'cycle'):
+    elif spec['fam'] in ('model', 'roundtrip', 'cycle', 'syn'):
         tmpdir = tempfile.mkdtemp(prefix='b_data_')
         try:
             r = _file_case(spec, tmpdir)
